@@ -203,9 +203,16 @@ func checkCodec(p *Prog, r *Report, typ string, layout []slot, fixed int, hasTai
 		}
 		c.teq("L-part", "encode/size", buf.S, wantSize, c.pos())
 		got := map[string]string{}
+		var dupRanges []string
 		for i, rng := range buf.F {
+			if _, dup := got[rng]; dup {
+				dupRanges = append(dupRanges, rng)
+			}
 			got[rng] = buf.A[i].String()
 		}
+		// one writer per range: with two, which one lands last is a matter of execution order that
+		// the buffer term does not keep
+		r.check(len(dupRanges) == 0, "L-part", "L-part/"+typ+".Bytes/one-writer-per-range", c.pos(), "every byte range of the encoder's buffer is written once", fmt.Sprintf("byte ranges written more than once: %v", dupRanges))
 		used := map[string]bool{}
 		for _, s := range layout {
 			var cands []string
